@@ -70,7 +70,33 @@ def _legal(h):
     return out
 
 
+RULE_OPS = {"enable", "disable", "chain_toggle", "configure", "enter_reset", "exit_reset", "use"}
+
+
+def augment(h, n):
+    """The model's state does not hold the lazily compiled rule chains, so a shortest history to a state never
+    parses BEFORE a rule-management call and often ends without a parse.  Every history therefore gets final probe
+    renders on each live instance, and every second history is `warmed`: a render is inserted before each
+    rule-management call (the instance's chains are compiled when the call arrives).  Parse is enabled in every
+    state of Facade.tla, so the augmented history is again a behaviour of the specification."""
+    live, out = set(), []
+    for e in h:
+        i = e.get("i")
+        if n % 2 and e["op"] in RULE_OPS and i in live:
+            out.append({"op": "parse", "i": i, "api": "render", "doc": "D2", "env": "omitted"})
+        out.append(e)
+        if e["op"] == "construct":
+            live.add(i)
+        elif e["op"] == "discard":
+            live.discard(i)
+    for i in sorted(live):
+        for d in ("D2", "D1"):
+            out.append({"op": "parse", "i": i, "api": "render", "doc": d, "env": "omitted"})
+    return out
+
+
 def validate(rep, label, hists, pid=PID, shard=2500):
+    hists = [augment(h, n) for n, h in enumerate(hists)]
     traces = C.pmap(facade.execute, [(h, n) for n, h in enumerate(hists)], chunk=32)
     verdicts, st = C.validate_traces("MCFacadeTrace", traces, cfg="FacadeTrace.cfg", shard=shard, heap="8g")
     rep.tlc_stats(f"FacadeTrace[{label}]", st, len(traces))
